@@ -441,6 +441,9 @@ class MinMaxAggregator:
         if not any(map(self._translatable_element, agg.atom.elements)):
             return [rule]  # nocoverage, #issue9
 
+        if agg.atom.left_guard is None:
+            return [rule]
+
         if not agg.atom.right_guard:
             lt = agg.atom.left_guard.comparison in (ComparisonOperator.LessThan, ComparisonOperator.LessEqual)
             gt = agg.atom.left_guard.comparison in (ComparisonOperator.GreaterThan, ComparisonOperator.GreaterEqual)
